@@ -273,6 +273,43 @@ def copyOf (f : Func) (T : DomTab) (u : Pos) (fuel : Nat) : Operand → Option O
         | _ => none
       else none
 
+/-- instructions that may write memory (or call) -/
+def isWriter : Instr → Bool
+  | .store .. | .fcall .. | .pcall .. | .copyblob .. | .asm .. => true
+  | _ => false
+
+/-- searching backwards from index `n - 1`: the first writer must be a store of type `int t` to the address
+    operand `p`; result: its index and the stored operand -/
+def scanBack (instrs : List Instr) (p : Operand) (t : ITy) : Nat → Option (Nat × Operand)
+  | 0 => none
+  | k + 1 =>
+    match instrs[k]? with
+    | some (.store ty v a _) => if ty = .int t ∧ a = p then some (k, v) else none
+    | some i => if isWriter i then none else scanBack instrs p t k
+    | none => none
+
+/-- `x := load (int t) p` (not volatile) preceded in its block by `store (int t) v p` with no writer in between,
+    `v` of declared type `int t`: position of the load, index of the store, `v`, `p`, `t` -/
+def lasSrc (f : Func) (x : String) : Option (Pos × Nat × Operand × Operand × ITy) :=
+  match defPos f x with
+  | none => none
+  | some px =>
+    match f.findBlock px.1 with
+    | none => none
+    | some b =>
+      match b.instrs[px.2]? with
+      | some (.load _ (.int t) p false) =>
+        (match scanBack b.instrs p t px.2 with
+         | some (q, v) => if opTy f v = some (.int t) then some (px, q, v, p, t) else none
+         | none => none)
+      | _ => none
+
+/-- the stored operand that the load `x` is a copy of, if the load strictly dominates `u` -/
+def loadOf (f : Func) (T : DomTab) (u : Pos) (x : String) : Option Operand :=
+  match lasSrc f x with
+  | some (px, _, v, _, _) => if sdomPt T px u then some v else none
+  | none => none
+
 /-- `o'` provably holds the value of `o` at point `u`; `ty` = the module passes `tyCheck` -/
 def justB (f : Func) (T : DomTab) (ty : Bool) (u : Pos) : Nat → Operand → Operand → Bool
   | 0, o, o' => o == o'
@@ -281,6 +318,11 @@ def justB (f : Func) (T : DomTab) (ty : Bool) (u : Pos) : Nat → Operand → Op
     (ty && (match copyOf f T u (n + 1) o with
        | some a => justB f T ty u n a o'
        | none => false)) ||
+    (ty && (match o with
+       | .loc x => (match loadOf f T u x with
+           | some v => justB f T ty u n v o'
+           | none => false)
+       | .glob _ => false)) ||
     (match knownInt f T u (n + 1) o, knownInt f T u (n + 1) o' with
      | some v, some v' => v == v'
      | _, _ => false) ||
